@@ -31,7 +31,7 @@ PROPS["C12"] = dict(
         SC_NOTE,
     ],
     runs=[
-        run("ratio", "c12_rc", "ratio_decision", "rc", dict(procs=5, cases=150000), dict(procs=16, cases=1500000)),
+        run("ratio", "c12_rc", "ratio_decision", "rc", dict(procs=5, cases=120000), dict(procs=16, cases=1500000)),
         run("sweep", "c12_rc", "ratio_sweep", "rc", dict(procs=2, cases=100000), dict(procs=6, cases=1000000)),
         run("parent", "c12_rc", "parent_based", "rc", dict(procs=3, cases=60000), dict(procs=8, cases=600000)),
         run("constant", "c12_rc", "constant", "rc", dict(procs=1, cases=30000), dict(procs=2, cases=400000)),
